@@ -1,4 +1,5 @@
 //! Chain rig: Agave bank + BanksClient in process, marginfi registered as a native processor.
+use solana_sdk::commitment_config::CommitmentLevel;
 use crate::tap::{self, TapEvent};
 use solana_program_test::{processor, ProgramTest, ProgramTestContext};
 use solana_sdk::{
@@ -42,6 +43,14 @@ impl TxOut {
             Err(e) => format!("{:?}", e),
         }
     }
+}
+
+/// Request context with a deadline far beyond tarpc's default of ten seconds: on a loaded machine a
+/// transaction may wait that long for a core, and a transport timeout is not an observation.
+fn long_ctx() -> tarpc::context::Context {
+    let mut c = tarpc::context::current();
+    c.deadline = std::time::SystemTime::now() + std::time::Duration::from_secs(1800);
+    c
 }
 
 pub struct Chain {
@@ -93,7 +102,10 @@ impl Chain {
             pt.add_account(k, a);
         }
         let ctx = pt.start_with_context().await;
-        let clock: Clock = ctx.banks_client.get_sysvar().await.unwrap();
+        let clock: Clock = {
+            let a = ctx.banks_client.get_account_with_commitment_and_context(long_ctx(), solana_sdk::sysvar::clock::id(), CommitmentLevel::default()).await.unwrap().expect("clock sysvar");
+            solana_sdk::account::from_account(&a).expect("clock")
+        };
         Chain { ctx, payer, nonce: 0, clock, tx_sent: 0, tx_sim: 0 }
     }
 
@@ -121,14 +133,19 @@ impl Chain {
     pub const IX_SHIFT: usize = 1;
 
     pub async fn send(&mut self, ixs: &[Instruction], signers: &[&Keypair]) -> TxOut {
-        let bh = self.ctx.banks_client.get_latest_blockhash().await.unwrap();
+        let bh = self.latest_blockhash().await;
         let tx = self.build(ixs, signers, bh);
         let _ = tap::drain();
         self.tx_sent += 1;
         if !tx.is_signed() {
             return TxOut { result: Err(TransactionError::SignatureFailure), events: vec![], simulated: false };
         }
-        let r = self.ctx.banks_client.process_transaction(tx).await;
+        let r = match self.ctx.banks_client.process_transaction_with_commitment_and_context(long_ctx(), tx, CommitmentLevel::default()).await {
+            Ok(None) => Err(solana_program_test::BanksClientError::ClientError("invalid blockhash or fee-payer")),
+            Ok(Some(Ok(()))) => Ok(()),
+            Ok(Some(Err(e))) => Err(solana_program_test::BanksClientError::TransactionError(e)),
+            Err(e) => Err(e),
+        };
         let events = tap::drain();
         let result = match r {
             Ok(()) => Ok(()),
@@ -140,21 +157,30 @@ impl Chain {
     }
 
     pub async fn simulate(&mut self, ixs: &[Instruction], signers: &[&Keypair]) -> TxOut {
-        let bh = self.ctx.banks_client.get_latest_blockhash().await.unwrap();
+        let bh = self.latest_blockhash().await;
         let tx = self.build(ixs, signers, bh);
         let _ = tap::drain();
         self.tx_sim += 1;
         if !tx.is_signed() {
             return TxOut { result: Err(TransactionError::SignatureFailure), events: vec![], simulated: true };
         }
-        let r = self.ctx.banks_client.simulate_transaction(tx).await.expect("simulate transport");
+        let r = self.ctx.banks_client.simulate_transaction_with_commitment_and_context(long_ctx(), tx, CommitmentLevel::default()).await.expect("simulate transport");
         let events = tap::drain();
         let result = r.result.unwrap_or(Ok(()));
         TxOut { result, events, simulated: true }
     }
 
     pub async fn get(&mut self, k: &Pubkey) -> Option<Account> {
-        self.ctx.banks_client.get_account(*k).await.unwrap()
+        self.ctx.banks_client.get_account_with_commitment_and_context(long_ctx(), *k, CommitmentLevel::default()).await.unwrap()
+    }
+
+    pub async fn rent(&mut self) -> solana_sdk::rent::Rent {
+        let a = self.get(&solana_sdk::sysvar::rent::id()).await.expect("rent sysvar");
+        solana_sdk::account::from_account(&a).expect("rent")
+    }
+
+    async fn latest_blockhash(&mut self) -> solana_sdk::hash::Hash {
+        self.ctx.banks_client.get_latest_blockhash_with_commitment_and_context(long_ctx(), CommitmentLevel::default()).await.unwrap().expect("blockhash").0
     }
 
     pub async fn get_many(&mut self, keys: &[Pubkey]) -> HashMap<Pubkey, Account> {
